@@ -222,6 +222,61 @@ class _Canon(ast.NodeTransformer):
     def visit_Lambda(self, node):
         return node
 
+    def visit_Subscript(self, node):
+        # a look-up in a class-level table of literals with a key that is a
+        # literal here (also: a parameter the inlined call was given a
+        # literal for) is the literal it yields
+        try:
+            v = self._table_lookup(node)
+        except Exception:
+            v = None
+        if v is not None:
+            return v
+        return self.generic_visit(node)
+
+    def _table_lookup(self, node):
+        fr = self.frame
+        val = node.value
+        if not (isinstance(val, ast.Attribute) and
+                isinstance(val.value, ast.Name) and
+                val.value.id in (fr.ctx.func.self_name, 'cls', 'self')):
+            return None
+        cls = fr.ctx.func.cls
+        if cls is None:
+            return None
+        table = cls.class_attrs.get(val.attr)
+        if not (isinstance(table, ast.Dict) and table.keys and all(
+                isinstance(k, ast.Constant) for k in table.keys) and all(
+                isinstance(x, ast.Constant) for x in table.values)):
+            return None
+        # the table is never re-bound or written through self
+        for m in cls.methods.values():
+            for x in ast.walk(m.node):
+                if isinstance(x, ast.Attribute) and x.attr == val.attr and \
+                        isinstance(x.ctx, (ast.Store, ast.Del)):
+                    return None
+                if isinstance(x, ast.Subscript) and \
+                        isinstance(x.ctx, (ast.Store, ast.Del)) and \
+                        isinstance(x.value, ast.Attribute) and \
+                        x.value.attr == val.attr:
+                    return None
+        key = node.slice
+        kv = None
+        if isinstance(key, ast.Constant):
+            kv = key.value
+        elif isinstance(key, ast.Name) and key.id in fr.ctx.func.params:
+            if _stores(fr.ctx.func)[0].get(key.id):
+                return None
+            for k, v in fr.ctx.consts:
+                if k == key.id:
+                    kv = v
+        if kv is None:
+            return None
+        for k, v in zip(table.keys, table.values):
+            if k.value == kv:
+                return ast.Constant(value=v.value)
+        return None
+
 
 def canon(e: ast.expr, frame: Frame) -> str:
     t = _Canon(frame).visit(copy.deepcopy(e))
